@@ -302,7 +302,7 @@ pub mod audit {
         storage::{
             BtreeMetadata, BtreeOps,
             page::{BtreePage, OverflowPage},
-            tuple::Row,
+            tuple::{Row, Tuple},
         },
         types::PageId,
     };
@@ -336,6 +336,12 @@ pub mod audit {
         pub cells: usize,
         /// column types of the schema the catalog holds for the tree (keys first)
         pub columns: Vec<String>,
+        /// creator of the catalog row and whether that transaction is recorded as aborted
+        pub created_by: u64,
+        pub creator_aborted: bool,
+        /// delete mark of the catalog row (DROP) and whether that transaction is recorded as aborted
+        pub dropped_by: Option<u64>,
+        pub dropper_aborted: bool,
         pub errors: Vec<String>,
     }
 
@@ -480,11 +486,14 @@ pub mod audit {
             Ok(iter) => {
                 for pos in iter {
                     let Ok(pos) = pos else { a.errors.push("meta table: iterator error".into()); break };
-                    let row = tree.with_cell_at(pos, |bytes| Row::from_bytes_checked(bytes, &schema));
+                    let row = tree.with_cell_at(pos, |bytes| {
+                        let stamps = Tuple::from_slice_unchecked(bytes).map(|t| (t.xmin(), t.xmax()));
+                        Row::from_bytes_checked(bytes, &schema).and_then(|r| stamps.map(|s| (r, s)))
+                    });
                     match row {
-                        Ok(Ok(row)) => {
+                        Ok(Ok((row, stamps))) => {
                             let r = Relation::from_meta_table_row(row);
-                            relations.push((r.object_id(), r.name().to_string(), r.root(), r.schema().clone()));
+                            relations.push((r.object_id(), r.name().to_string(), r.root(), r.schema().clone(), stamps));
                         }
                         Ok(Err(e)) => a.errors.push(format!("meta table row: {e}")),
                         Err(e) => a.errors.push(format!("meta table cell: {e}")),
@@ -494,8 +503,20 @@ pub mod audit {
             Err(e) => a.errors.push(format!("meta table: {e}")),
         }
         drop(tree);
-        for (oid, name, root, schema) in relations {
-            a.trees.push(walk_tree(db, oid, &name, root, a.total_pages, &schema));
+        let aborted: HashSet<u64> = db.pager.read().get_aborted_transactions().into_iter().collect();
+        for (oid, name, root, schema, (xmin, xmax)) in relations {
+            let dead = aborted.contains(&xmin) || xmax.is_some_and(|x| !aborted.contains(&x));
+            // the pages of a relation that is gone belong to whoever got them since: do not walk them
+            let mut t = if dead {
+                TreeInfo { object_id: oid, name: name.clone(), root, ..Default::default() }
+            } else {
+                walk_tree(db, oid, &name, root, a.total_pages, &schema)
+            };
+            t.created_by = xmin;
+            t.creator_aborted = aborted.contains(&xmin);
+            t.dropped_by = xmax;
+            t.dropper_aborted = xmax.is_some_and(|x| aborted.contains(&x));
+            a.trees.push(t);
         }
         a
     }
